@@ -399,7 +399,14 @@ class GBNFCompiler:
         Returns:
             GBNF literal: "value"
         """
-        value = str(constraint.const_value)
+        const = constraint.const_value
+        if isinstance(const, bool):
+            # OCTAVE spells booleans lower-case; str(False) gave "False", which the reader takes for a string
+            value = "true" if const else "false"
+        elif const is None:
+            value = "null"
+        else:
+            value = str(const)
         escaped = self._escape_literal(value)
         return f'"{escaped}"'
 
